@@ -259,3 +259,14 @@ def r10_6_numeric_discipline(ctx: Ctx) -> RuleResult:
     rr = RuleResult("R10.6", "time-of-day arithmetic uses exact integer operations (no float on unbounded amounts; floor only on non-negative operands)", min_instances=7)
     check_numeric(ctx, rr, C10_MODULES, decoder_exempt={"OffsetTime._offset_seconds", "OffsetTime._offset_nanoseconds"})
     return rr
+
+
+@rule("C10")
+def r10_4_calendar_retention(ctx: Ctx) -> RuleResult:
+    from ..core import anchor_files
+    from ..retention import check_retention
+
+    rr = RuleResult("R10.4", "time arithmetic carries days into the date in its own calendar (no optional `calendar` dropped)", min_instances=1)
+    files = anchor_files("C10")
+    check_retention(ctx, rr, lambda f: f.mod.rel in files)
+    return rr
